@@ -114,6 +114,20 @@ def run_case(ctx, g, rng):
             nontrivial = res.startswith(("synonym", "empty")) or res.endswith("-of-empty") or d in i
             probe.note_key(f"{res}:{icls}:{'colon' if d == ':' else 'd' + str(len(d))}:u{nsyn}:{how == 'rdflib'}", nontrivial)
             S.counters["wl:curies"] += 1
+    # used as an input of derivations whose results are modified; then asked again (against its own records)
+    if recs and g % 4 == 2 and d == ":" and how != "rdflib":
+        r0 = rng.choice(recs)
+        other = api.Converter([api.Record(prefix="zzp", uri_prefix=r0.uri_prefix, prefix_synonyms=["zzsyn"], uri_prefix_synonyms=["http://zz.syn/"])])
+        call(api.chain, [c, other])
+        so = call(c.get_subconverter, [r0.prefix])
+        if so[0] == "ret":
+            call(so[1].add_prefix, r0.prefix, r0.uri_prefix, ["zzsyn2"], ["http://zz.syn2/"], merge=True)
+        for p in ["zzp", "zzsyn", "zzsyn2", *spec.all_p(r0)]:
+            call(c.expand, p + d + "1")
+            call(c.expand_pair, p, "1")
+            call(c.expand_all, p + d + "1")
+            call(c.expand_pair_all, p, "1")
+        S.counters["wl:asked-again-after-being-derived-from"] += 1
     if g % 131 == 0:
         q = prefixes[0] + d + "x" + d + "y"
         probe.sample({"records": [spec.rec_dict(r) for r in recs], "delimiter": d, "built": how, "curie": q,
